@@ -1186,7 +1186,7 @@ def run(chk, drv, rng, tier):
                     run_history(chk, drv, spec, cell, df, dseed, ops, tag, ngen=n, unavailable=una)
             for ops in refit_stream(rng, spec, cell):
                 run_history(chk, drv, spec, cell, df, dseed, ops, tag, ngen=n, unavailable=una)
-            nh = (2 if quick else 8)
+            nh = (2 if quick else 6)
             for _ in range(nh):
                 length = int(rng.integers(3, 9)) if quick else int(rng.integers(4, 15))
                 ops = gen_ops(rng, spec, cell, length)
